@@ -11,3 +11,4 @@ CONSTANTS
   Depth = 5
   GEN = FALSE
 INVARIANTS FwdOnlyAuthorised FwdNeverForged EncOnlyAuthorised HsOnlyAuthorised Attribution OneToOne AuthRefines AuthExact Emit
+PROPERTIES RegisterKeepsTunnels RenewalIsSeamless
